@@ -12,7 +12,12 @@ def main():
     prog = re.search(r'program (\w+) \*\)', src).group(1)
     head = src[:src.index('Definition eqs')] if 'C07' in f or 'C05' in f else src[:src.index('Lemma chk')]
     cmds = []
-    if os.path.basename(f).startswith('C05'):
+    if os.path.basename(f).startswith('C06'):
+        body = src[:src.index('Lemma chk')]
+        body += 'Eval vm_compute in rep_failures Gin P outs eqs.\n'
+        body += 'Eval vm_compute in (let G := infer_prog (RepT 1) (assoc_env Gin) P in filter (fun x => match G x with None => true | _ => false end) (map fst P)).\n'
+        labels = ['failing', 'untyped']
+    elif os.path.basename(f).startswith('C05'):
         body = src[:src.index('Lemma chk')]
         body += 'Eval vm_compute in shift_failures Gin P outs eqs.\n'
         body += 'Eval vm_compute in (let G := infer_prog ShiftT (assoc_env Gin) P in filter (fun x => match G x with None => true | _ => false end) (map fst P)).\n'
